@@ -57,6 +57,7 @@ func (fr *frame) exec(instr ssa.Instruction, st *State) {
 		fx.storeVal(st, p, g.zero(t))
 		fr.foldWF(st, p.HT, p.Addr)
 		fr.foldPos(st, p.HT, p.Addr)
+		fr.foldPrec(st, p.HT, p.Addr)
 		fr.vals[x] = p
 		fx.noteObj(p)
 		fx.noteNodeRefs(p, x.Type())
@@ -195,6 +196,7 @@ func (fr *frame) exec(instr ssa.Instruction, st *State) {
 			fx.storeVal(st, p, v)
 			fr.foldWF(st, p.HT, p.Addr)
 			fr.foldPos(st, p.HT, p.Addr)
+			fr.foldPrec(st, p.HT, p.Addr)
 		case ElemPtrV:
 			fr.storeElem(st, p, v)
 		default:
